@@ -46,6 +46,7 @@ std::map<const void *, VC> g_sync;        // mutexes, atomics
 VC g_final[MAXT];
 std::unordered_map<uintptr_t, Cell> g_shadow;
 thread_local int tl_ignore = 0;
+thread_local uintptr_t tl_last_pc = 0;   // most recent instrumented code address of this thread (site of a free())
 thread_local int tl_busy = 0;   // inside the detector: its own allocations and frees are not tracked
 struct Busy {
     Busy() { ++tl_busy; }
@@ -73,6 +74,7 @@ void report(uintptr_t addr, const Acc &prev, bool prev_w, int t, uintptr_t pc, b
 void access(uintptr_t addr, size_t size, bool is_write, uintptr_t pc, bool atomic = false) {
     if (!live() || tl_busy) return;
     Busy busy;
+    tl_last_pc = pc;
     int t = me();
     VC &C = g_vc[t];
     for (size_t i = 0; i < size; ++i) {
@@ -183,7 +185,7 @@ void rd_ignore(int delta) { rd::tl_ignore += delta; }
 // ---- the tsan ABI the instrumented objects call -----------------------------------------------------
 #define PC ((uintptr_t) __builtin_return_address(0))
 void __tsan_init() {}
-void __tsan_func_entry(void *) {}
+void __tsan_func_entry(void *) { rd::tl_last_pc = PC; }
 void __tsan_func_exit() {}
 void __tsan_read1(void *a) { rd::access((uintptr_t) a, 1, false, PC); }
 void __tsan_read2(void *a) { rd::access((uintptr_t) a, 2, false, PC); }
@@ -262,7 +264,13 @@ void __tsan_atomic_signal_fence(int) {}
 extern void __libc_free(void *);
 extern void *__libc_realloc(void *, size_t);
 void free(void *p) {
-    if (p && rd::g_on && rd::tl_busy == 0 && !rd::g_shadow.empty()) rd::clear_range((uintptr_t) p, malloc_usable_size(p));
+    if (p && rd::g_on && rd::tl_busy == 0 && !rd::g_shadow.empty()) {
+        // handing memory back is a write to all of it (the deallocating code in libstdc++ is not instrumented:
+        // the site reported is the last instrumented address this thread passed)
+        size_t n = malloc_usable_size(p);
+        if (rd::tl_last_pc) rd::access((uintptr_t) p, n > 4096 ? 4096 : n, true, rd::tl_last_pc);
+        rd::clear_range((uintptr_t) p, n);
+    }
     __libc_free(p);
 }
 }  // extern "C"
